@@ -187,7 +187,7 @@ class kMinPathErrorCycles(walkmodel.AbstractWalkModelDiGraph):
         utils.logger.debug(f"{__name__}: edges_to_ignore_internal set to {edges_to_ignore_internal}")
 
         self.edges_to_ignore = self.G.source_sink_edges.union(edges_to_ignore_internal)
-        self.edge_error_scaling = error_scaling_internal
+        self.edge_error_scaling = dict(error_scaling_internal)      # (a copy: the factors are read again after solve(); later edits of the caller's dict must not reach the model)
         # If the error scaling factor is 0, we ignore the edge
         self.edges_to_ignore |= {edge for edge, factor in self.edge_error_scaling.items() if factor == 0}
         
